@@ -180,27 +180,27 @@ def drange(t0 = None, t1 = None, bump = None):
                 res = res[::-1] if interval<0 else res    
                 res = res[::abs(interval)] if abs(interval)>1 else res
                 return res            
-            else:
+            elif interval > 0 and t1 > t0:
                 return list(rrule(freq, interval = interval, dtstart = t0, until = t1))
+        ## compound bumps, and single bumps that are zero or negative (which rrule does not support), are iterated using dt_bump
+        t = t0
+        res = []
+        if t1>t0: 
+            if dt_bump(t0, bump) <= t0:
+                raise ValueError('cannot move forward from %s to %s using %s'%(t0, t1, bump))
+            while t<=t1:
+                res.append(t)
+                t = dt_bump(t, bump)
+            return res
+        elif t1<t0: 
+            if dt_bump(t0, bump) >= t0:
+                raise ValueError('cannot move back from %s to %s using %s'%(t0, t1, bump))
+            while t>=t1:
+                res.append(t)
+                t = dt_bump(t, bump)
+            return res
         else:
-            t = t0
-            res = []
-            if t1>t0: 
-                if dt_bump(t0, bump) <= t0:
-                    raise ValueError('cannot move forward from %s to %s using %s'%(t0, t1, bump))
-                while t<=t1:
-                    res.append(t)
-                    t = dt_bump(t, bump)
-                return res
-            elif t1<t0: 
-                if dt_bump(t0, bump) >= t0:
-                    raise ValueError('cannot move back from %s to %s using %s'%(t0, t1, bump))
-                while t>=t1:
-                    res.append(t)
-                    t = dt_bump(t, bump)
-                return res
-            else:
-                return [t0]
+            return [t0]
                             
 
 class _calendar():
